@@ -67,7 +67,7 @@ def check_scheme(out, sub, sa, boundary, fvals, tag):
 def run(case):
     out = Outcome()
     sub = "history"
-    g = drive.driver_function(case["dim"], case["fseed"])
+    g = drive.fit_to_box(drive.driver_function(case["dim"], case["fseed"]), case["a"], case["b"])
     f = drive.vector_function([g])
     sa, op = drive.build_dw(case, f)
     st_ = dict(strict=0, raised=0, lmax=None, steps=0, maxpts=0, before=None)
@@ -112,7 +112,7 @@ def selftest():
                 margin=0.9, safety=0.1, maxev=50, maxsteps=2, tape=[2, 0, 0], mode=0, fseed=1)
     o = run(case)
     assert not o.violations, o.violations
-    g = drive.driver_function(2, 1)
+    g = drive.fit_to_box(drive.driver_function(2, 1), case["a"], case["b"])
     sa, op = drive.build_dw(case, drive.vector_function([g]))
 
     def corrupt(k):
@@ -125,4 +125,4 @@ def selftest():
     drive.run_history(sa, case, on_eval=corrupt)
 
 
-SUBS = [Sub("history", strategy, run, dict(quick=700, thorough=10000), budget_s=dict(quick=50, thorough=600))]
+SUBS = [Sub("history", strategy, run, dict(quick=1600, thorough=16000), budget_s=dict(quick=55, thorough=600))]
